@@ -3,3 +3,4 @@ import PV.Lemmas.RWLock.Step
 import PV.Lemmas.RWLock.Inv
 import PV.Lemmas.RWLock.Live
 import PV.Lemmas.RWLock.Api
+import PV.Lemmas.RWLock.Fail
